@@ -28,7 +28,8 @@ RULE = ("generated input files (CSV with delimiters , ; | and -s; RTTM; 1-2 file
 ASSUMPTIONS = [
     "equivalent API call: Continuum.from_csv/from_rttm, CombinedCategoricalDissimilarity(alpha, beta, delta_empty, "
     "cat_dissim chosen by -d over the file's categories), ShuffleContinuumSampler when -m, compute_gamma(precision_level="
-    "-p, n_samples=-n) in fast mode as the tool does (an exact-mode API value is accepted as well)",
+    "-p, n_samples=-n) in fast mode as the tool does, the numpy seed applied once before the first file (an exact-mode "
+    "API value, or the seed applied before each file, are accepted as well: the statement does not fix them)",
     "values compared with |a-b| <= 1e-6*max(1,|a|); nan equals nan; the gamma-k cell of the CSV report must evaluate as "
     "a dict literal of numbers (inf / nan spelled as Python prints them)",
     "when the equivalent API call itself raises, the tool must fail as well (and vice versa is a violation)",
@@ -103,7 +104,7 @@ DEFAULTS = {"alpha": 1.0, "beta": 1.0, "delta": 1.0, "precision": 0.05, "n_sampl
             "mathet": False}
 
 
-def api_results(case, paths, override=None, fast=True):
+def api_results(case, paths, override=None, fast=True, reseed_each_file=False):
     import pygamma_agreement as pa
     o = dict(DEFAULTS)
     o.update({k: v for k, v in case["options"].items() if v is not None})
@@ -112,6 +113,8 @@ def api_results(case, paths, override=None, fast=True):
         np.random.seed(o["seed"])
     out = []
     for path in paths:
+        if reseed_each_file and o.get("seed") is not None:
+            np.random.seed(o["seed"])
         if case["format"] == "csv":
             c = pa.Continuum.from_csv(path, delimiter=case["separator"])
         else:
@@ -312,13 +315,15 @@ def _check(ctx, case, d):
         return
     diff = same_results(got, api)
     if diff:
-        try:
-            exact = api_results(case, paths, fast=False)
-            if same_results(got, exact) is None:
-                ctx.observe("matches_exact_mode_api", True)
-                diff = None
-        except Exception:
-            pass
+        # other readings of "the API result for the same file and seed": exact mode; the seed applied before each file
+        for label, kw in (("exact_mode", {"fast": False}), ("seed_applied_per_file", {"reseed_each_file": True})):
+            try:
+                if same_results(got, api_results(case, paths, **kw)) is None:
+                    ctx.observe("matches_alternative_api_reading", label)
+                    diff = None
+                    break
+            except Exception:
+                pass
     if diff:
         # which option does the tool seem to ignore?  (diagnosis only)
         culprit = None
